@@ -32,12 +32,14 @@ def vocab():
     return _VOCAB
 
 
-def compare(db):
-    """Returns None if equivalent, else a message. Precondition: db.index.valid."""
+def compare(db, points=None):
+    """Returns None if equivalent, else a message. Precondition: db.index.valid.
+    points: what storage holds, observed passively by the caller (default: read through the storage object)."""
     from tinyflux.index import Index
 
     live = db.index
-    points = db.storage.read()
+    if points is None:
+        points = db.storage.read()
     fresh = Index()
     fresh.build(points)
     if len(live) != len(fresh):
